@@ -121,7 +121,9 @@ def check_enum(ctx, m, g, kind):
     for h in m.handlers[kind]:
         ctx.inst("C02.arm", distinct=(m.key, kind, h.fn))
         # the variant a client reaches with this method's name
-        vn = wire_to_variant.get(h.fn) if NAME_SHAPE.match(h.fn) else None
+        from .c01 import forwarded_rename
+        rn = forwarded_rename([t for t, _ in h.variant_attrs])
+        vn = wire_to_variant.get(rn if rn is not None else h.fn) if (NAME_SHAPE.match(h.fn) or rn is not None) else None
         if vn is None:
             vs = info.h2v.get(h.fn, [])
             vn = vs[0] if len(vs) == 1 else None
